@@ -140,11 +140,33 @@ def site_computation(ctx, rep, clause):
        f'terminal index tests are {tests}', f.loc(), clause)
 
 
+def counter_sibling(ctx, rep, clause):
+    """the budget max_mods is added to a starting count; the recursion stops on a count: both must count the same
+    thing (modified residues), otherwise residues carrying several modifications inflate the budget"""
+    program = ctx.program
+    b = program.func(f'{MB}:_variable_mods_builder')
+    r = program.func(f'{MB}:_apply_variable_mods_rec')
+
+    def counters(f):
+        return sorted({n.func.attr for n in walk_own(f.node) if isinstance(n, ast.Call) and
+                       isinstance(n.func, ast.Attribute) and n.func.attr.startswith('count_')})
+    cb, cr = counters(b), counters(r)
+    ob(rep, 'SIB-counter', b.fq, f'budget baseline {cb} and recursion stop test {cr} use the same counter',
+       cb == cr and len(cb) == 1, f'{cb}', f'the baseline added to max_mods is {cb} but the recursion stops on {cr}: '
+       f'with a pre-modified residue carrying two modifications more than max_mods new sites are produced', b.loc(),
+       clause)
+    txt = ' '.join(norm_stmt(s) for s in ast.walk(b.node) if isinstance(s, ast.Call))
+    ob(rep, 'SIB-counter', b.fq, 'the recursion is started with max_mods + starting count',
+       'max_mods + starting_mod_count' in txt or 'starting_mod_count + max_mods' in txt, 'budget = max_mods + baseline',
+       'the recursion budget is not max_mods plus the starting count', b.loc(), clause)
+
+
 def check(ctx, rep):
     rep.explanation = EXPLANATION
     an, program = ctx.analyzer, ctx.program
     mode_semantics(ctx, rep, 'C13a')
     site_computation(ctx, rep, 'C13b')
+    counter_sibling(ctx, rep, 'C13a')
     for fname in ('apply_static_mods', 'apply_variable_mods', '_variable_mods_builder', '_apply_variable_mods_rec'):
         fq = f'{MB}:{fname}'
         s = an.summaries.get((fq, ()))
@@ -160,3 +182,7 @@ def check(ctx, rep):
     callers = {f.fq for f in program.all_functions() if f.module.name == MB}
     n = add_fwd(rep, forwarding(an, program, ['mode', 'return_type', 'max_mods'], callers=callers), 'C13d')
     rep.floor('FWD', 'forwarding sites in mod_builder.py', n, 12)
+    from .common import memo_rule
+    memo_rule(ctx, rep, 'C13e', ('peptacular.sequence.mod_builder',))
+    from .common import repeat_alias_rule
+    repeat_alias_rule(ctx, rep, 'C13c', ('peptacular.sequence.mod_builder', 'peptacular.proforma.input_convert'))
